@@ -13,6 +13,8 @@ for d in sorted(glob.glob(os.path.join(root, "seeded", "*"))):
     first = "after strengthening" if note.startswith("missed at first") else "as built"
     if not m.get("caught_by"):
         first = "on purpose: judged outside the statement, see meta.json"
+        if m.get("obsolete"):
+            first = "no longer a fault on the repaired tree: " + m["obsolete"][:140] + "...; caught by " + ", ".join(m.get("caught_by_before_d643864", [])) + " before"
     rows.append(f"| {name} | {', '.join(os.path.basename(f) for f in m.get('files', []))} | {summ} | {needs} | {caught} ({first}) |")
 hand = """
 Hand-made changes applied while the checks were built (each killed by the quick tier, then reverted):
